@@ -623,11 +623,11 @@ func (w *world) deliverAfter(batch []delivered, kind string, src chain.Chain, fi
 	}
 	natural := kind != "duplicates" && kind != "reversed" && kind != "gap-inside" && kind != "crafted-height" && kind != "gap-above-fork-point"
 	var head, tail *nom.Momentum
-	extends, refuse := false, false
+	extends, refuse, linkedHead := false, false, false
 	if len(unknown) > 0 {
 		head = unknown[0].d.Momentum
 		tail = batch[len(batch)-1].d.Momentum
-		linkedHead := head.Height >= 2 && oldHashes[head.Height-1] == head.PreviousHash
+		linkedHead = head.Height >= 2 && oldHashes[head.Height-1] == head.PreviousHash
 		extends = head.Previous() == before.Identifier()
 		refuse = !extends && (!linkedHead || before.Height-(head.Height-1) > 30 || tail.Height <= before.Height)
 	}
@@ -702,6 +702,8 @@ func (w *world) deliverAfter(batch []delivered, kind string, src chain.Chain, fi
 		}
 		return "not in the batch"
 	}
+	// (1a'') ... and the account blocks it lists extend the confirmed account chains: no hole, no block on a foreign previous
+	accountChainOracle(out, l, firstAdopted, after.Height, kind, deliveredAs, namedAccounts)
 	if !contentOracle(out, l, firstAdopted, after.Height, kind, deliveredAs, namedAccounts) {
 		w.broken = true
 		out.Count("sync:history-ended:adopted-content-does-not-resolve")
@@ -709,14 +711,22 @@ func (w *world) deliverAfter(batch []delivered, kind string, src chain.Chain, fi
 	}
 	// (1) only verified momentums on the chain: every stored momentum is byte-identical to a genuinely produced one
 	okStored := true
+	storedDetail := M{"kind": kind}
 	for h := uint64(2); h <= after.Height; h++ {
 		m, _ := l.Ch.GetFrontierMomentumStore().GetMomentumByHeight(h)
 		bts, _ := m.Serialize()
 		if gb, ok := w.genuine[m.Hash]; !ok || !bytes.Equal(gb, bts) {
+			if okStored {
+				// the first held momentum that nobody produced honestly: where it is, how it came (this call or an earlier one)
+				storedDetail = M{"kind": kind, "height": U64(h), "hash_known_as_genuinely_produced": ok, "same_bytes_as_produced": ok && bytes.Equal(gb, bts),
+					"adopted_by_this_call": h > before.Height || m.Hash != oldHashes[h], "delivered_as": deliveredAs(h), "headers": len(m.Content),
+					"timestamp": U64(m.TimestampUnix), "producer": types.PubKeyToAddress(m.PublicKey).String(),
+					"frontier_under_lock": U64(before.Height), "frontier_after": U64(after.Height), "class": cname, "index": idx, "batch_len": len(batch), "known_prefix": firstUnknown}
+			}
 			okStored = false
 		}
 	}
-	out.Oracle(okStored, "insertchain-holds-only-verified-momentums", M{"kind": kind})
+	out.Oracle(okStored, "insertchain-holds-only-verified-momentums", storedDetail)
 	// (1b) ... and only verified account blocks: every block of a momentum adopted by this call acknowledges a momentum
 	// that is on the chain, below the momentum that confirms it
 	for h := uint64(2); h <= after.Height; h++ {
@@ -821,6 +831,35 @@ func (w *world) deliverAfter(batch []delivered, kind string, src chain.Chain, fi
 		} else {
 			out.Count("sync:left-own-chain-for-invalid(F11)")
 		}
+	}
+	// (2b) leaving the own chain implies a delivered chain that LINKS to an own momentum: whatever known momentums the
+	// delivery starts with, its first unknown momentum names an own momentum (hash and height) as previous, and the node
+	// goes back to exactly that momentum
+	if abandoned > 0 {
+		lowest := uint64(0)
+		for h := uint64(1); h <= before.Height && lowest == 0; h++ {
+			if hashAt(l.Ch, h) != oldHashes[h] {
+				lowest = h
+			}
+		}
+		d := M{"kind": kind, "abandoned": abandoned, "lowest_abandoned_height": U64(lowest), "frontier_before": U64(before.Height), "frontier_after": U64(after.Height),
+			"known_prefix": firstUnknown, "class": cname, "index": idx}
+		if head != nil {
+			d["first_unknown_height"] = U64(head.Height)
+			d["first_unknown_names_own_momentum"] = linkedHead
+		}
+		out.Oracle(head != nil && linkedHead && lowest == head.Height, "insertchain-leaves-chain-only-for-delivery-linked-to-own-momentum", d)
+	}
+	// (2c) a delivery whose first unknown momentum sits on none of the node's momentums is refused; chain and pool stay as they are
+	if head != nil && !extends && !linkedHead {
+		samePool := len(poolAfter) == len(poolBefore)
+		for _, b := range poolAfter {
+			samePool = samePool && inPoolBefore[b.Hash] != nil
+		}
+		out.Oracle(cls == 1 && after.Identifier() == before.Identifier() && abandoned == 0 && samePool, "insertchain-unlinked-delivery-changes-nothing",
+			M{"kind": kind, "class": cname, "index": idx, "known_prefix": firstUnknown, "first_unknown_height": U64(head.Height), "frontier_before": U64(before.Height),
+				"frontier_after": U64(after.Height), "abandoned": abandoned, "pool_before": len(poolBefore), "pool_after": len(poolAfter)})
+		out.Count(fmt.Sprintf("sync:unlinked-first-unknown:known-prefix:%d", min(firstUnknown, 6)))
 	}
 	// (4) failure index. The batch is refused as a whole (index of its first unknown momentum since fix 39747b8 — the
 	// deliverer of THAT momentum is the one to blame, not the deliverer of the known prefix —, nothing changed) when its first unknown momentum does not
@@ -998,6 +1037,14 @@ func (w *world) pooledDelivery(s *Node) {
 		if Broadcast(BridgeOf(s), b) == nil {
 			legit++
 			out.Count("sync:pooled-block-delivered:valid-on-source:" + where + ":" + ackOwn)
+			continue
+		}
+		if len(s.Ch.GetUncommittedAccountBlocksByAddress(b.Address)) > 0 {
+			// s refused b because of its own POOL (it holds a competing unconfirmed block of that account, e.g. a send left
+			// over by the hostile-producer family), which says nothing about b on s's CONFIRMED chain: force-adding b replaces
+			// the competitor and the momentum produced from it can be perfectly valid (thorough seed 1: adopted, re-verified on
+			// a fresh node, while the books called it "unverified by producer"). Such a block is not part of this delivery.
+			out.Count("sync:pooled-block-delivered:source-holds-competing-unconfirmed-block")
 			continue
 		}
 		if dump := PatchDumpOf(l.Ch, b); dump != nil && ForcePool(s.Ch, b, dump) == nil && Pooled(s.Ch, b) {
@@ -1452,7 +1499,16 @@ func syncHistory(rng *rand.Rand, out *Out, first bool) (reproduced bool) {
 			grow(src, rng, int(lf-sf)+1+rng.Intn(3))
 			w.remember(src)
 		}
-		switch rng.Intn(11) {
+		switch rng.Intn(13) {
+		case 11:
+			// an overlapping delivery whose remainder does not sit on the last known momentum
+			if rng.Intn(2) == 0 {
+				w.fillPool()
+			}
+			w.unlinkedDelivery(src)
+		case 12:
+			// a hostile elected producer: listed account blocks that do not extend the confirmed account chains
+			w.gapDelivery(src, other)
 		case 10:
 			// a hostile elected producer: content that does not correspond to the applied / delivered blocks
 			if rng.Intn(3) == 0 {
@@ -1494,6 +1550,8 @@ func syncHistory(rng *rand.Rand, out *Out, first bool) (reproduced bool) {
 	for h := uint64(2); h <= FrontierOf(w.l.Ch).Height; h++ {
 		adoptedMomentumOracle(out, w.l, h, "resulting-chain", "")
 	}
+	// ORACLE: ... whose account blocks form gapless account chains
+	accountChainOracle(out, w.l, 2, FrontierOf(w.l.Ch).Height, "resulting-chain", func(uint64) string { return "" }, nil)
 	// ORACLE: ... and lists exactly the account blocks the node stores as confirmed by it
 	if !contentOracle(out, w.l, 2, FrontierOf(w.l.Ch).Height, "resulting-chain", func(uint64) string { return "" }, nil) {
 		return
